@@ -254,4 +254,15 @@ def expectedObs (env : Env) (xdp : Bool) (v : Verdict) : Obs :=
     else ⟨"exit", shot, some 2⟩
   | .xdpPass => ⟨"exit", 2, none⟩
 
+/-- What an outcome looks like from outside: how the program ended, the jump
+index / return value, and `pol_rc`. -/
+def Outcome.obs : Outcome → Option Obs
+  | .exit r0 m => some ⟨"exit", r0.toNat, (getBytes m.st 92 4).map leNat⟩
+  | .tail _ idx m => some ⟨"tail", idx.toNat, (getBytes m.st 92 4).map leNat⟩
+  | .fault => none
+
+/-- The observation `o` is what `e` demands (`e.rc = none`: `pol_rc` unspecified). -/
+def Obs.agrees (e o : Obs) : Bool :=
+  e.kind == o.kind && e.target == o.target && (e.rc.isNone || e.rc == o.rc)
+
 end CalicoVerif.C11
